@@ -132,6 +132,10 @@ def classify_exception(e):
             return '(EHam (EOperIds Noise))'
         if 'cannot infer' in m:
             return '(EHam ENoInfer)'
+        if 'Cannot disambiguate clashing control identifiers' in m:
+            return '(EHam (EDupIds Control))'
+        if 'Cannot disambiguate clashing noise identifiers' in m:
+            return '(EHam (EDupIds Noise))'
         if 'forced' in m:
             return 'EForced'
         if 'Cannot compute the pulse correlation' in m:
@@ -548,7 +552,8 @@ def decision_predicates(pulses, states, opt, info):
             consistent = len(set('A' if s in ('omegaA', 'cmA') else 'B' for s in relevant)) == 1
             if om is not None or consistent:
                 bad.append(('spurious-valueerror', 'ValueError %s although the frequencies are known' % cls))
-        elif cls in ('(EHam ENoInfer)', '(EHam (EOperIds Noise))', '(EHam (EOperIds Control))', 'EShapes', 'EBases'):
+        elif cls in ('(EHam ENoInfer)', '(EHam (EOperIds Noise))', '(EHam (EOperIds Control))', '(EHam (EDupIds Noise))',
+                     '(EHam (EDupIds Control))', 'EShapes', 'EBases'):
             pass        # incompatible inputs (decided by the bookkeeping check)
         else:
             bad.append(('raises-' + type(info['exc']).__name__,
@@ -610,6 +615,8 @@ def refine_signature(obs, pulses, states, opt):
         if cf is None and om is None and not any(s in ('cmA', 'cmB') for s in states):
             return 'c03-pc-missing-no-cached-control-matrix'
         return 'c03-pc-missing'
+    if obs == 'regroup-rejected':
+        return 'c03-regroup-rejected-after-clash'
     if obs.startswith('raises-'):
         if f['dup']:
             return 'c03-duplicate-identifiers'
@@ -706,7 +713,7 @@ def herm(r, d):
 def numeric_specs(r, thorough):
     d = int(r.choice([2, 2, 2, 3])) if thorough else 2
     n = int(r.choice([2, 2, 3, 3, 4] if thorough else [2, 2, 3]))
-    share = str(r.choice(['shared', 'partial', 'disjoint']))
+    share = str(r.choice(['shared', 'partial', 'disjoint', 'flip']))
     nn = int(r.integers(1, 3))
     pool = [herm(r, d) for _ in range(3)]
     basis = str(r.choice(['pauli', 'rot'])) if d == 2 else 'ggm'
@@ -719,6 +726,8 @@ def numeric_specs(r, thorough):
             sel = list(range(nn))
         elif share == 'partial':
             sel = [0] + ([1] if (j % 2 == 0 and nn > 1) else [])
+        elif share == 'flip':
+            sel = [j % 2, 2]
         else:
             sel = [j % 3]
         noise = []
@@ -727,7 +736,9 @@ def numeric_specs(r, thorough):
                 co = r.standard_normal(G)          # time-dependent sensitivities are fine when present everywhere
             else:
                 co = np.full(G, sens[q])
-            noise.append((pool[q], co, 'n%d' % q))
+            # 'flip': identifier 'X' on two different operators (clash suffix 'X_0', 'X_1' sorts AFTER 'XY')
+            ident = ('X' if q < 2 else 'XY') if share == 'flip' else 'n%d' % q
+            noise.append((pool[q], co, ident))
         specs.append(dict(c=ctrl, n=noise, dt=r.uniform(0.2, 1.2, G), basis=basis))
     return specs, dict(d=d, n=n, share=share, basis=basis)
 
@@ -826,17 +837,28 @@ def numeric_predicates(pulses, new, om, which='fidelity'):
         if not e <= PROP_RTOL:
             bad.append(('regroup', '%s: control matrix differs from the flat concatenation / from scratch: rel %.3g' % (what, e)))
 
+    def grouped(what, build):
+        try:
+            c = build()
+        except ValueError as e:
+            if classify_exception(e) in ('(EHam (EOperIds Noise))', '(EHam (EOperIds Control))', '(EHam (EDupIds Noise))',
+                                         '(EHam (EDupIds Control))'):
+                # the identifiers disambiguated by the inner concatenation ('X_0') meet the same operator under its
+                # original identifier ('X') in the remaining pulses
+                bad.append(('regroup-rejected', '%s raises %r although the flat concatenation succeeds' % (what, e)))
+                return
+            raise
+        same(c, what)
+
     cp = [copy.deepcopy(p) for p in pulses]
     if n == 2:
         same(cp[0] @ cp[1], '@')
     if n >= 3:
-        left = ff.concatenate((ff.concatenate(cp[:2], omega=om, calc_filter_function=True), *cp[2:]), omega=om,
-                              calc_filter_function=True)
-        same(left, 'left regrouping')
+        grouped('left regrouping', lambda: ff.concatenate(
+            (ff.concatenate(cp[:2], omega=om, calc_filter_function=True), *cp[2:]), omega=om, calc_filter_function=True))
         cp = [copy.deepcopy(p) for p in pulses]
-        right = ff.concatenate((cp[0], ff.concatenate(cp[1:], omega=om, calc_filter_function=True)), omega=om,
-                               calc_filter_function=True)
-        same(right, 'right regrouping')
+        grouped('right regrouping', lambda: ff.concatenate(
+            (cp[0], ff.concatenate(cp[1:], omega=om, calc_filter_function=True)), omega=om, calc_filter_function=True))
     # slicing the result and re-concatenating the pieces
     G = len(new.dt)
     if G >= 2:
